@@ -2200,8 +2200,8 @@ theorem wf_of_inlineLeaves (S : Schema) (sl : Slice) (hsl : sl.inlineLeaves S = 
     them is an in-order subsequence of the slice's text (`Kept`).  **Unconditional when the answer is a
     `ReplaceStep`**; for a `ReplaceAroundStep` answer one hypothesis about the step is left (`AroundPayload`).
     FULL STATEMENT (`insertInline_valid`): the same without `hpa`.  Missing: `Slice.insert_at(insert, gap)` keeps
-    `openValid` at `insert > 0` — Proofs/InsertAtValid.lean proves it for closed slices (`insertAt_closed_openValid`,
-    under `FromDom.TextStable`, slice and gap in normal form); the emitted slice is open at the start
+    `openValid` at `insert > 0` — Proofs/InsertAtValid.lean proves it (`insertAt_openValid`; see
+    `insertInline_valid` below); the emitted slice is open at the start
     (`open_start = depth(from)`), and its normal form (`fnorm`) is not proved for the Fitter (the same residual as in
     C04's `DeleteResidual`). -/
 theorem insertInline_valid_partial (S : Schema) (hdet : detB S = true) (hfill : S.fillersOKB = true)
